@@ -334,3 +334,261 @@ func equalityChecksPresence(c *core.Ctx) {
 	}
 	_ = sort.Strings
 }
+
+// lexerIndexingGuarded (C03-R10, C20-R9): every index or slice operation of the
+// lexer functions that the parser's error constructors call (GetLineText) — they
+// run outside any recover, for every diagnostic — is bounded by a comparison with
+// the length of the indexed value.
+func lexerIndexingGuarded(c *core.Ctx) {
+	p := c.P
+	n := 0
+	// the lexer functions the parser calls while it builds an error (they run
+	// for every diagnostic, including those positioned at the EOF tokens)
+	onErrorPath := map[*ssa.Function]bool{}
+	for _, pf := range repoFns(p, "parser") {
+		buildsError := false
+		for _, b := range pf.Blocks {
+			for _, in := range b.Instrs {
+				if ci, ok := in.(ssa.CallInstruction); ok {
+					if cal := ci.Common().StaticCallee(); cal != nil && strings.HasPrefix(cal.Name(), "NewParserError") {
+						buildsError = true
+					}
+				}
+			}
+		}
+		if !buildsError {
+			continue
+		}
+		for _, b := range pf.Blocks {
+			for _, in := range b.Instrs {
+				if ci, ok := in.(ssa.CallInstruction); ok {
+					if cal := ci.Common().StaticCallee(); cal != nil && cal.Pkg != nil && core.RelPkg(cal.Pkg.Pkg) == "lexer" {
+						onErrorPath[cal] = true
+					}
+				}
+			}
+		}
+	}
+	if len(onErrorPath) == 0 {
+		core.Undecidedf("no lexer function is called from the parser's error constructors")
+	}
+	for _, fn := range repoFns(p, "lexer") {
+		if !onErrorPath[fn] {
+			continue
+		}
+		has := false
+		for _, b := range fn.Blocks {
+			for _, in := range b.Instrs {
+				switch in.(type) {
+				case *ssa.Slice, *ssa.IndexAddr, *ssa.Index, *ssa.Lookup:
+					has = true
+				}
+			}
+		}
+		if !has {
+			continue
+		}
+		n++
+		sites := core.UnguardedIndexing(fn)
+		msg := ""
+		for _, s := range sites {
+			msg += "; " + s.What + " at " + p.Pos(s.Instr.Pos())
+		}
+		c.Check(len(sites) == 0, core.SSAName(fn)+"|indexing-guarded", p.Pos(fn.Pos()),
+			fn.Name()+" indexes and slices only under a comparison with the length of the indexed value"+msg)
+	}
+	c.Stat("lexer_functions_indexing", n)
+}
+
+// fieldNilBelief (C03-R11): on the surface that no recover protects, a struct
+// field that a function tests for nil is not dereferenced on a path that the
+// test does not cover.  `if f.init == nil && f.post == nil { ... return }`
+// followed by f.init.String() believes two things about f.init at once; a
+// three-part loop without an init statement panics inside compiler.Compile.
+func fieldNilBelief(c *core.Ctx) {
+	p := c.P
+	surf, _ := unprotectedSurface(p)
+	var fns []*ssa.Function
+	for f := range surf {
+		if f.Blocks != nil {
+			fns = append(fns, f)
+		}
+	}
+	sort.Slice(fns, func(i, j int) bool { return core.SSAName(fns[i]) < core.SSAName(fns[j]) })
+	n := 0
+	for _, fn := range fns {
+		type fkey struct {
+			base  ssa.Value
+			field int
+		}
+		type load struct {
+			v     *ssa.UnOp
+			check *ssa.If // an If testing this load against nil
+			nilOn int     // successor index taken when nil
+			risky ssa.Instruction
+		}
+		groups := map[fkey][]*load{}
+		for _, b := range fn.Blocks {
+			for _, in := range b.Instrs {
+				u, ok := in.(*ssa.UnOp)
+				if !ok || u.Op != token.MUL {
+					continue
+				}
+				fa, ok := u.X.(*ssa.FieldAddr)
+				if !ok {
+					continue
+				}
+				switch u.Type().Underlying().(type) {
+				case *types.Pointer, *types.Interface:
+				default:
+					continue
+				}
+				l := &load{v: u}
+				if u.Referrers() != nil {
+					for _, r := range *u.Referrers() {
+						switch x := r.(type) {
+						case *ssa.BinOp:
+							k, isC := x.Y.(*ssa.Const)
+							if (x.Op == token.EQL || x.Op == token.NEQ) && isC && k.IsNil() && x.Referrers() != nil {
+								for _, r2 := range *x.Referrers() {
+									if iff, ok := r2.(*ssa.If); ok {
+										l.check = iff
+										if x.Op == token.EQL {
+											l.nilOn = 0
+										} else {
+											l.nilOn = 1
+										}
+									}
+								}
+							}
+						case *ssa.Call:
+							if x.Call.IsInvoke() && x.Call.Value == ssa.Value(u) {
+								l.risky = x
+							}
+							if !x.Call.IsInvoke() && len(x.Call.Args) > 0 && x.Call.Args[0] == ssa.Value(u) && x.Call.StaticCallee() != nil && x.Call.StaticCallee().Signature.Recv() != nil {
+								l.risky = x
+							}
+						case *ssa.FieldAddr:
+							if x.X == ssa.Value(u) {
+								l.risky = x
+							}
+						}
+					}
+				}
+				groups[fkey{fa.X, fa.Field}] = append(groups[fkey{fa.X, fa.Field}], l)
+			}
+		}
+		k := 0
+		for key, ls := range groups {
+			var checks []*load
+			for _, l := range ls {
+				if l.check != nil {
+					checks = append(checks, l)
+				}
+			}
+			if len(checks) == 0 {
+				continue
+			}
+			for _, l := range ls {
+				if l.risky == nil {
+					continue
+				}
+				n++
+				guarded := false
+				for _, ch := range checks {
+					nonNil := ch.check.Block().Succs[1-ch.nilOn]
+					if len(nonNil.Preds) == 1 && (nonNil == l.risky.Block() || nonNil.Dominates(l.risky.Block())) {
+						guarded = true
+					}
+					// the nil side leaves the function: everything after the test is the non-nil side
+					nilSide := ch.check.Block().Succs[ch.nilOn]
+					if len(nilSide.Preds) == 1 && blockAlwaysReturns(nilSide) && ch.check.Block().Dominates(l.risky.Block()) && nilSide != l.risky.Block() && !nilSide.Dominates(l.risky.Block()) {
+						guarded = true
+					}
+				}
+				// the nil side repairs the field (if x.f == nil { x.f = default })
+				for _, ch := range checks {
+					nilSide := ch.check.Block().Succs[ch.nilOn]
+					for _, in2 := range nilSide.Instrs {
+						if st, ok := in2.(*ssa.Store); ok {
+							if fa2, ok := st.Addr.(*ssa.FieldAddr); ok && fa2.Field == key.field && (fa2.X == key.base || core.SameStorage(fa2.X, key.base)) {
+								if ch.check.Block().Dominates(l.risky.Block()) {
+									guarded = true
+								}
+							}
+						}
+					}
+				}
+				if guarded {
+					continue
+				}
+				fname := "?"
+				if f := fieldVarOfAddr(key.base, key.field); f != nil {
+					fname = f.Name()
+				}
+				if why, ok := fieldNilBeliefExceptions[core.SSAName(fn)+"|"+fname]; ok {
+					c.Pass(core.SSAName(fn)+"|field-nil-belief:"+fname+"|excepted", p.Pos(l.risky.Pos()), "reasoned exception: "+why)
+					continue
+				}
+				k++
+				c.Fail(core.SSAName(fn)+"|field-nil-belief:"+fname+"#"+itoa(k), p.Pos(l.risky.Pos()),
+					fn.Name()+" tests ."+fname+" for nil on one path and dereferences it here on a path that test does not cover")
+			}
+		}
+		if k == 0 && len(groups) > 0 {
+			any := false
+			for _, ls := range groups {
+				for _, l := range ls {
+					if l.check != nil {
+						any = true
+					}
+				}
+			}
+			if any {
+				c.Pass(core.SSAName(fn)+"|field-nil-belief", p.Pos(fn.Pos()), "every dereference of a nil-tested field is covered by the test")
+			}
+		}
+	}
+	c.Stat("field_dereferences_judged", n)
+}
+
+func fieldVarOfAddr(base ssa.Value, field int) *types.Var {
+	t := base.Type()
+	if pt, ok := t.Underlying().(*types.Pointer); ok {
+		t = pt.Elem()
+	}
+	st, ok := t.Underlying().(*types.Struct)
+	if !ok || field >= st.NumFields() {
+		return nil
+	}
+	return st.Field(field)
+}
+
+// blockAlwaysReturns: every path from b ends in a return without rejoining
+// (cheap check: b and the blocks it dominates contain no edge to a block b does
+// not dominate).
+func blockAlwaysReturns(b *ssa.BasicBlock) bool {
+	seen := map[*ssa.BasicBlock]bool{}
+	var walk func(x *ssa.BasicBlock) bool
+	walk = func(x *ssa.BasicBlock) bool {
+		if seen[x] {
+			return true
+		}
+		seen[x] = true
+		for _, s := range x.Succs {
+			if s != b && !b.Dominates(s) {
+				return false
+			}
+			if !walk(s) {
+				return false
+			}
+		}
+		return true
+	}
+	return walk(b)
+}
+
+// One named site each, with the invariant the unchecked path relies on.
+var fieldNilBeliefExceptions = map[string]string{
+	"(*ast.Var).String|value": "the walrus form `x := e` cannot be parsed without a value (parseDeclaration reports an error and returns no node), so only the `var x` form can have a nil value and only that branch tests it",
+}
